@@ -103,8 +103,8 @@ def lake_build(targets: Sequence[str], timeout: int = 1500) -> Tuple[bool, str]:
         return p.returncode == 0, p.stdout + p.stderr
 
 
-AX_RE = re.compile(r"'([^']+)' depends on axioms: \[([^\]]*)\]")
-AX_NONE_RE = re.compile(r"'([^']+)' does not depend on any axioms")
+AX_RE = re.compile(r"'(\S+)' depends on axioms: \[([^\]]*)\]")
+AX_NONE_RE = re.compile(r"'(\S+)' does not depend on any axioms")
 
 
 def parse_axioms(log: str) -> Dict[str, List[str]]:
@@ -408,6 +408,8 @@ def finish(ctx: Ctx, level: str = "proof") -> int:
         "samples": ctx.samples[:6] or ["(no correspondence cases this run)"],
         "distribution": ctx.hist,
         "disagreements": len(ctx.corr_broken),
+        "disagreement_samples": ctx.corr_broken[:5],
+        "oracle_failure_samples": [{"key": v.key, "what": v.what, "replay": v.replay} for v in ctx.violations[:5]],
         "oracle_failures": len(ctx.violations),
         "known_findings_listed": [f[0] for f in findings],
         "fixed_entries": fixed,
